@@ -454,6 +454,9 @@ func execDraw(line string) (res h.Result) {
 	}
 	for i, op := range ops {
 		t := strings.Fields(op)
+		if t[0] == "FIT" || t[0] == "FIT0" {
+			continue // pseudo-ops for the Lean driver (colour-fitting values); they must not reset lastDraw
+		}
 		lastDraw = false
 		tag := strconv.Itoa(i)
 		switch t[0] {
@@ -658,7 +661,8 @@ func execDraw(line string) (res h.Result) {
 						addF("display-mismatch", "cell (%d,%d): terminal shows %s/%s/%s, application set rune %d comb %v style %s (want %s/%s)",
 							x, y, ec.runes, ec.pen, ec.flags, c.main, c.comb, c.style, strings.Join(want, ","), pen)
 					}
-					if mustBeBlank(c.main) && got != "32" {
+					// shown as a blank: the base glyph is a space (the cell's own zero-width combining marks may follow it)
+					if mustBeBlank(c.main) && strings.SplitN(got, ",", 2)[0] != "32" {
 						addF("payload-format-char-shown", "cell (%d,%d) holds U+%04X (control / bidi / invisible format character) as primary rune; the terminal shows %s instead of a blank", x, y, c.main, ec.runes)
 					}
 					if wide && x+1 < sh.w && !sh.locked[[2]int{x + 1, y}] && !strings.Contains(cells[y*sh.w+x+1].flags, "c") {
@@ -786,7 +790,48 @@ func fitOps(name string, cols map[uint64]bool) []string {
 	return []string{"FIT " + strings.Join(a, ","), "FIT0 " + strings.Join(b, ",")}
 }
 
+// genDrawMatrix: one fixed case per ECMA entry and colour mode that paints a cell in each underline style (with palette,
+// RGB and default underline colour), with each attribute alone and all together, with palette / bright / 256 / RGB
+// colours, and with a hyperlink (with and without id) followed by a plain cell, then Shows twice.  A slip in one
+// per-entry capability string (or in the code that picks it) is then judged by the emulator oracle on a concrete
+// input, in every tier, whatever the seed.
+func genDrawMatrix(g *h.Gen) {
+	for _, name := range ecmaEntries() {
+		for tc := 0; tc < 2; tc++ {
+			var ops []string
+			cols := map[uint64]bool{}
+			put := func(x, y, m int, f StyleF) {
+				cols[f.Fg], cols[f.Bg], cols[f.UlColor] = true, true, true
+				ops = append(ops, fmt.Sprintf("S %d %d %d - %s", x, y, m, f))
+			}
+			val := func(i int) uint64 { return uint64(tcell.PaletteColor(i)) }
+			rgb := uint64(tcell.NewRGBColor(18, 52, 86))
+			for ul := 0; ul <= 5; ul++ { // row 0: underline styles, coloured three ways
+				put(ul, 0, 'a'+ul, StyleF{Fg: val(2), Bg: val(0), UlStyle: ul, UlColor: []uint64{val(1), rgb, uint64(tcell.ColorReset), val(9), val(200), 0}[ul]})
+			}
+			for b := 0; b < 7; b++ { // row 1: each attribute alone, then all
+				put(b, 1, 'A'+b, StyleF{Fg: val(7), Bg: val(4), Attrs: 1 << uint(b)})
+			}
+			put(7, 1, 'H', StyleF{Fg: val(7), Bg: val(4), Attrs: 127})
+			for i, c := range []uint64{val(1), val(9), val(15), val(16), val(87), val(255), rgb, uint64(tcell.ColorReset)} { // row 2: colours
+				put(i, 2, '0'+i, StyleF{Fg: c, Bg: val(0)})
+			}
+			for i, c := range []uint64{val(1), val(9), val(15), val(16), val(87), val(255), rgb, uint64(tcell.ColorReset)} { // row 3: backgrounds
+				put(i, 3, 'p'+i, StyleF{Fg: val(7), Bg: c})
+			}
+			put(0, 4, 'u', StyleF{Fg: val(3), Bg: val(0), Url: "https://example.com/x"})
+			put(1, 4, 'v', StyleF{Fg: val(3), Bg: val(0), Url: "https://example.com/x", UrlId: "id=k"})
+			put(2, 4, 'w', StyleF{Fg: val(3), Bg: val(0)})
+			put(7, 4, 'z', StyleF{Fg: val(3), Bg: val(0), Url: "http://last"}) // the frame ends inside a hyperlink
+			ops = append(ops, "W", "S 0 0 98 - "+StyleF{Fg: val(2), Bg: val(0)}.String(), "W", "W")
+			ops = append(ops, fitOps(name, cols)...)
+			g.Emit("draw %s %d 8 5 %s", name, tc, strings.Join(ops, "; "))
+		}
+	}
+}
+
 func genDraw(g *h.Gen) {
+	genDrawMatrix(g)
 	r := g.R
 	ents := ecmaEntries()
 	n := g.N(1200, 40000)
@@ -943,6 +988,6 @@ func init() {
 		Rule: "every code point (quick: all below U+3000, every 61st above, boundary values; thorough: all 0x110000) and out-of-range rune values as primary cell content in the first, a middle and the last column; UTF-8 and ISO8859-1 locales; plus base x combining-mark cells in UTF-8 and five 8-bit charsets (SUB-answering and error-answering charmaps); 12 cells per case; every case is non-trivial",
 		Gen:  genDrawCP, Exec: execDraw})
 	h.Register(&h.Engine{Name: "draw",
-		Rule: "draw histories (4-36 ops) on a real terminfo screen over a fake tty, every ECMA-family entry, direct colour on/off, sizes 2..7 x 1..4; distinct = distinct line; non-trivial = at least one in-range SetContent",
+		Rule: "a fixed attribute/underline/colour/hyperlink matrix for every ECMA-family entry x direct colour on/off, then random draw histories (4-36 ops) on a real terminfo screen over a fake tty, every ECMA-family entry, direct colour on/off, sizes 2..7 x 1..4; distinct = distinct line; non-trivial = at least one in-range SetContent",
 		Gen:  genDraw, Exec: execDraw})
 }
